@@ -215,3 +215,18 @@ def block_estimator_population(p: Program):
              f"the averaged weights {show(d, maxdepth=2)[:70]} are not the stored population weights")
             + ("" if bw_ok else "; the reported block weight is not their sum")
             + ("" if uses else "; the population-control shift does not use this block energy"), fi)
+
+
+def m_method_reshape_of(t: T, src: T) -> bool:
+    """t is  src.reshape(-1, n, n)  /  jnp.reshape(src, (-1, n, n)): the flat trailing axis of src split into two equal ones"""
+    t = strip_wrappers(t)
+    dims = None
+    if t.op == "call" and t.args[0].op == "attr" and t.args[0].args[1] == "reshape" and t.args[0].args[0] is src:
+        dims = call_parts(t)[1]
+    elif t.op == "call" and array_fn(t) == "reshape" and call_parts(t)[1] and call_parts(t)[1][0] is src:
+        dims = call_parts(t)[1][1:]
+    if dims is None:
+        return False
+    if len(dims) == 1 and dims[0].op in ("tuple", "list"):
+        dims = list(dims[0].args)
+    return len(dims) == 3 and dims[1] is dims[2]
